@@ -656,6 +656,14 @@ func (e *Engine) Build(target string, o BuildOpt) (*Step, BuildRes, bool) {
 	st := e.step("build", desc)
 	st.RunErr, st.LoadErr = res.RunErr, res.LoadErr
 	e.consumeLog(st, from, o.Always)
+	if !alive {
+		// The process died: a body that finished may or may not have been recorded. Re-executing it
+		// is the safe behaviour, not executing it is fine too if the record was written: no
+		// expectation either way for the targets that started.
+		for _, l := range st.Executed {
+			e.M.mt(l).UncertainSince = e.M.tick()
+		}
+	}
 	if alive && res.LoadErr == "" && res.RunErr == "" && !o.Dry && !o.NoCheck {
 		for _, l := range e.Closure(target) {
 			if why := e.Stale(l); why != "" {
